@@ -29,6 +29,8 @@ mod k_resp;
 mod k_dflt;
 #[cfg(feature = "k_enum")]
 mod k_enum;
+#[cfg(feature = "k_cache")]
+mod k_cache;
 
 pub type OpResult = Result<Value, String>;
 
@@ -53,6 +55,8 @@ fn dispatch(op: &str, input: &mut Value) -> OpResult {
     "dflt" => k_dflt::eval(op, input),
     #[cfg(feature = "k_enum")]
     "enum" => k_enum::eval(op, input),
+    #[cfg(feature = "k_cache")]
+    "cache" | "share" => k_cache::eval(op, input),
     _ => Err(format!("unknown-op:{op}")),
   }
 }
